@@ -223,9 +223,13 @@ func (tree *ParserT) parseObject(exec bool) ([]rune, *primitives.DataType, error
 			o.stage++
 
 		case '\n':
-			err := o.WriteKeyValuePair()
-			if err != nil {
-				return nil, nil, err
+			// a new line ends a pair, but only once the pair has its value:
+			// JSON allows line breaks between a key, its colon and its value
+			if !o.IsValueUndefined() {
+				err := o.WriteKeyValuePair()
+				if err != nil {
+					return nil, nil, err
+				}
 			}
 			tree.crLf()
 
